@@ -562,6 +562,8 @@ class StmtMixin:
 
     # The interpreter calls on_assert only when the false branch is reachable; record the discharged case too.
     def at_stmt(self, s: ast.stmt, st) -> None:
+        for ob in self.__dict__.get("stmt_observers", ()):
+            ob(s, st, self)
         if isinstance(s, ast.Assert):
             scope = self.cfg.assert_scope
             if scope is None or self.fi.qualname in scope:
